@@ -264,6 +264,38 @@ NOT_YET = "check not built yet (work in progress in this round; see DESIGN.md se
 ALL = ["C%02d" % i for i in range(1, 21)]
 
 
+
+# what the models gained after the first version (kept separate so that the entries above stay readable)
+ADDENDA = {
+    "C01": " Also assigned through a PrototypedFrom delegate, a Property(trait) and an object holding an instance-level "
+           "copy of the trait (7 routes).",
+    "C02": " Extended: handler registration and removal as operations (on_trait_change, observe, object-level), the "
+           "dispatch guard, inherited @observe methods with magic names, classes without handler methods, quiet bulk "
+           "sets with a rejected member; every enumerated case is followed by a probe assignment.",
+    "C04": " Every history step first transfers the value (constructor, deepcopy, clone_traits, copy_traits, pickle, "
+           "another object's container); Undefined and None as further invalid items.",
+    "C05": " Third binding: every TraitList mutation made while the repository's own test modules run (about 190 000 in "
+           "the quick tier, the whole suite in the thorough tier) is recorded by a pytest plugin, abstracted into the "
+           "specification's item domain and judged by the same judge.",
+    "C06": " Third binding: the TraitDict mutations made by the repository's own tests are recorded and judged by the "
+           "same judge.",
+    "C07": " Third binding: the TraitSet mutations made by the repository's own tests are recorded and judged by the "
+           "same judge.",
+    "C08": " Extended: sets, a nested container (dict of lists), dynamic traits given with add_trait (trait_added as "
+           "an observable), a probe of the dynamic trait, enumerated set / nested / dynamic cases.",
+    "C10": " Extended: Map default and its shadow, zero-size Array default, a fault after the default was stored, pure "
+           "query operations, the class's base-trait table in the class view.",
+    "C13": " Extended: wildcards added at run time with add_class_trait (resolution kept per name), a trait_added "
+           "listener that admits instance traits, trait definitions copied / pickled before use.",
+    "C14": " Extended: a legacy depends_on cached property read while a copy is filled in, a delegated container of "
+           "containers, traits given with add_trait (known finding F22).",
+    "C19": " Extended: dynamic Range whose value= default faults, a compound trait with an adapting alternative, the "
+           "validator of a synchronised partner.",
+}
+for _k, _v in ADDENDA.items():
+    CLAIMED[_k]["text"] += _v
+
+
 def main():
     checks = []
     for pid in ALL:
